@@ -621,9 +621,11 @@ func (env *Env) lvalue(e ast.Expr) *Loc {
 				base = &Loc{Root: base.Root, Path: append(append([]PathElem(nil), base.Path...), PathElem{Kind: "deref"}), NilCond: base.NilCond, Ver: base.Ver}
 			}
 		}
-		it := env.toIntIndex(idx, x.Pos())
+		var it Term
 		if kind == "mapidx" {
 			it = idx.T
+		} else {
+			it = env.toIntIndex(idx, x.Pos())
 		}
 		return &Loc{Root: base.Root, Path: append(append([]PathElem(nil), base.Path...), PathElem{Kind: kind, Idx: it}), NilCond: base.NilCond, Ver: base.Ver}
 	case *ast.StarExpr:
